@@ -4,6 +4,7 @@ import (
 	"fmt"
 	"go/token"
 	"go/types"
+	"os"
 	"sort"
 	"strings"
 
@@ -196,6 +197,45 @@ func R22() Rule {
 					okc, whyc = false, "Copy does not reset TimeCreated before adding the destination"
 				}
 			}
+			// source and destination names are not mixed: every call that receives two of Copy's four
+			// name parameters gets both from the same side, the Add gets the destination side, every
+			// other call (existence check, content read) the source side
+			if len(cp.Params) == 5 {
+				side := func(v ssa.Value) int {
+					v = core.Resolve(v)
+					for i, pa := range cp.Params[1:] {
+						if v == ssa.Value(pa) {
+							return 1 + i/2 // 1 = source, 2 = destination
+						}
+					}
+					return 0
+				}
+				okSlots, whySlots := true, ""
+				for _, f := range storeScope(P, cp) {
+					if f != cp {
+						continue
+					}
+					for _, ci := range core.AllCalls(f) {
+						sides := map[int]bool{}
+						for _, a := range ci.Common.Args {
+							if sd := side(a); sd != 0 {
+								sides[sd] = true
+							}
+						}
+						if len(sides) == 0 {
+							continue
+						}
+						if len(sides) > 1 {
+							okSlots, whySlots = false, "a call in Copy receives a source name together with a destination name ("+ci.CalleeName()+")"
+						} else if ci.Static == add && !sides[2] {
+							okSlots, whySlots = false, "Copy adds the object under the source's name"
+						} else if ci.Static != add && !sides[1] {
+							okSlots, whySlots = false, "Copy reads through the destination's name ("+ci.CalleeName()+")"
+						}
+					}
+				}
+				c.Check(okSlots, "R22", s+".Copy/source-and-destination-not-mixed", cp.Pos(), "reads use (srcBucket, srcFile), the write uses (dstBucket, dstFile)", whySlots+": the copy takes content or metadata from the wrong object (visible for cross-bucket copies)")
+			}
 			c.Check(okc, "R22", s+".Copy/through-Add-with-fresh-TimeCreated", cp.Pos(), "Copy clears TimeCreated and writes the destination with the store's own Add", whyc)
 			// ---- read-only methods have no effects
 			for _, m := range []string{"Get", "GetMeta", "ReadMeta", "Walk", "GetBucketMeta"} {
@@ -320,7 +360,7 @@ func R22() Rule {
 			}
 			c.Check(okOnly && n == 1, "R22", "filestore.UpdateMeta/writes-only-the-sidecar", um.Pos(), "the only file written is metaFilename(...)", "filestore.UpdateMeta writes something other than the metadata sidecar: a patch can change content, size or generation (mtime)")
 			add := storeMethod(P, "filestore", "Add")
-			var content, mtime, meta ssa.Instruction
+			var content, mtime, meta, contentNoTrunc ssa.Instruction
 			addScope := storeScope(P, add)
 			addSet := setOf(addScope)
 			for _, f := range addScope {
@@ -332,12 +372,30 @@ func R22() Rule {
 						if P.AllOrigins(ci.Common.Args[0], addSet, func(v ssa.Value) bool { return pathFrom(v, "(*filestore).filename") }) {
 							content = ci.Instr
 						}
+					case ci.IsFunc("os", "Create"):
+						if P.AllOrigins(ci.Common.Args[0], addSet, func(v ssa.Value) bool { return pathFrom(v, "(*filestore).filename") }) {
+							content = ci.Instr
+						}
+					case ci.IsFunc("os", "OpenFile"):
+						// an explicit open replaces the old content only with O_TRUNC
+						if P.AllOrigins(ci.Common.Args[0], addSet, func(v ssa.Value) bool { return pathFrom(v, "(*filestore).filename") }) {
+							if flags, isK := core.ConstInt(ci.Common.Args[1]); isK && flags&int64(os.O_TRUNC) != 0 {
+								content = ci.Instr
+							} else {
+								contentNoTrunc = ci.Instr
+							}
+						}
 					case ci.IsFunc("os", "Chtimes"):
 						mtime = ci.Instr
 					}
 				}
 			}
 			okAdd := content != nil && meta != nil && mtime != nil && P.InterDominates(add, content, mtime, addSet) && P.InterDominates(add, mtime, meta, addSet)
+			if contentNoTrunc != nil {
+				c.Bad("R22", "filestore.Add/content-write-truncates", contentNoTrunc.Pos(), "the content file is opened for writing without O_TRUNC: overwriting an object with a shorter payload leaves the tail of the old bytes in place (served content, size and md5 disagree)")
+			} else {
+				c.Ok("R22", "filestore.Add/content-write-truncates", add.Pos(), true, "the content file is replaced by a truncating write")
+			}
 			c.Check(okAdd, "R22", "filestore.Add/content-mtime-sidecar", add.Pos(), "writes the content file, forces a fresh mtime (= generation), then writes the sidecar", "filestore.Add does not write content, refresh the mtime and write the sidecar in that order: the object is incomplete or its generation does not change on overwrite")
 			del := storeMethod(P, "filestore", "Delete")
 			rmContent, rmMeta := false, false
@@ -361,10 +419,6 @@ func R22() Rule {
 				// every error return that is dominated by `readErr != nil` must also be dominated by `!os.IsNotExist(readErr)`
 				okTol = true
 				for _, r := range returnsIn(call.Parent()) {
-					ie, _ := isErrorReturn(r)
-					if !ie {
-						continue
-					}
 					underRead := false
 					notExistExcluded := false
 					for _, f := range core.FactsAt(r.Block()) {
@@ -377,6 +431,8 @@ func R22() Rule {
 							notExistExcluded = true
 						}
 					}
+					// any return — an error, or a silent "not found" — taken because the sidecar could
+					// not be read must have excluded the plain "does not exist" case first
 					if underRead && !notExistExcluded {
 						okTol = false
 					}
